@@ -37,6 +37,83 @@ pub fn run(stream: &'static str, args: &Args) {
     });
 }
 
+// ------------------------------------------------------------------ c03glyphs: the same designs through a Glyphs 3 source
+//
+// The abstract design is the one `gen_design` makes (2-3 axes, identity axis mappings, sparse masters, composites), plus
+// sometimes one more sparse master that sits OFF the default's trailing axes (it shares them with a non-default full
+// master): written as a brace layer of that master with only the leading coordinates, the omitted axes must be taken
+// from the associated master. The design is written by `write_glyphs` (seeded choice of master order / origin parameter
+// / which master each brace layer is attached to / how many coordinates it states) and judged by the same oracle.
+pub fn gen_glyphs_design(rng: &mut Rng) -> design::Design {
+    let mut o = design::GenOpts::default();
+    o.max_axes = 3;
+    o.vertical = false;
+    o.mapping = false;
+    // non-export glyphs stay off as in c03e2e (partial decomposition of non-export components is C12's subject)
+    let mut d = loop {
+        let d = design::gen_design(rng, &o);
+        if d.axes.len() >= 2 { break d; }
+    };
+    let n_axes = d.axes.len();
+    let fulls: Vec<usize> = (0..d.masters.len()).filter(|&i| !d.masters[i].sparse && i != d.default_master).collect();
+    if !fulls.is_empty() && rng.chance(1, 2) {
+        let mi = *rng.pick(&fulls);
+        // the first k coordinates may differ from master mi, the rest are mi's
+        let k = 1 + rng.below(n_axes - 1);
+        let a = rng.below(k);
+        let ax = &d.axes[a];
+        let (lo, hi) = if ax.max != ax.default { (ax.default, ax.max) } else { (ax.min, ax.default) };
+        let mut l = d.masters[mi].loc.clone();
+        l[a] = lo + (hi - lo) * (*rng.pick(&[0.25, 0.5, 0.75]));
+        if !d.masters.iter().any(|m| m.loc == l) {
+            let base = d.masters[d.default_master].glyphs.clone();
+            let names = d.glyph_names();
+            let cands: Vec<&String> = names.iter().filter(|n| !d.skip_export.contains(n)).collect();
+            let mut m = design::Master { name: format!("S{}", d.masters.len()), style: "SparseOff".into(), loc: l, sparse: true, ..Default::default() };
+            for _ in 0..1 + rng.below(2.min(cands.len())) {
+                let n = (*rng.pick(&cands)).clone();
+                m.glyphs.insert(n.clone(), design::vary_glyph(rng, &base[&n], 60, false));
+            }
+            d.masters.push(m);
+        }
+    }
+    d
+}
+
+pub fn run_glyphs(args: &Args) {
+    use crate::e2e::write_glyphs;
+    let seed = args.seed;
+    crate::run_cases("c03glyphs", args, move |i| {
+        let mut rng = Rng::for_case(seed, "c03glyphs", i);
+        let d = gen_glyphs_design(&mut rng);
+        let wo = write_glyphs::GlyphsOpts::choose(&d, &mut rng);
+        let tmp = build::tmpdir("c03glyphs");
+        let src = write_glyphs::write_glyphs(tmp.path(), &d, &wo);
+        // replay aid: VERIF_KEEP_SRC=<dir> keeps a copy of the generated source
+        if let Ok(keep) = std::env::var("VERIF_KEEP_SRC") { let _ = std::fs::copy(&src, format!("{keep}/c03glyphs-{seed}-{i}.glyphs")); }
+        let res = build::compile(&src, &build::BuildOpts::default());
+        let mut f = vec![d.to_sexp()];
+        match res {
+            Ok(bytes) => {
+                f.push(S::k1("result", S::atom("ok")));
+                f.push(dump::dump_all(&bytes));
+            }
+            Err(e) => {
+                f.push(S::kv("result", [S::atom("err"), S::str(&e)]));
+            }
+        }
+        // how the source was written (not read by the oracle; for counting what the stream reaches)
+        let (brace, nondef, partial, inherit) = wo.stats(&d);
+        f.push(S::kv("gsrc", [
+            S::k1("brace", S::usize(brace)), S::k1("nondef", S::usize(nondef)), S::k1("partial", S::usize(partial)),
+            S::k1("inherit", S::usize(inherit)), S::k1("origin", S::bool(wo.origin_param)),
+            S::k1("first", S::usize(wo.master_order[0])),
+            S::k1("filters", S::bool(wo.explicit_filters)), S::k1("opencorner", S::bool(write_glyphs::has_open_corner(&d))),
+        ]));
+        f
+    });
+}
+
 // ------------------------------------------------------------------ c04adv: coinciding advance sequences
 //
 // Advances (and advance heights) are drawn from two "profiles" shared by all glyphs, and the design has two or three
